@@ -58,16 +58,19 @@ RunStart == Ev("RunStart") /\ l' = l + 1 /\ cur' = 0 /\ phase' = "run" /\ UNCHAN
 RunEnd == /\ Ev("RunEnd")
           /\ (E.ok = 1) => (phase = "run" /\ cur # 0 /\ Me.frames = <<>>)
           /\ (E.ok = 0) => phase \in {"dead", "idle"}
-          /\ l' = l + 1 /\ cur' = 0 /\ phase' = "idle" /\ UNCHANGED <<fibs>>
+          \* a run that ended with an error: reset_stack() empties the fiber it died in
+          /\ fibs' = IF E.ok = 0 /\ cur # 0 THEN With(cur, [frames |-> <<>>, hs |-> <<>>, ret |-> -1]) ELSE fibs
+          /\ l' = l + 1 /\ cur' = 0 /\ phase' = "idle"
 
 Chunk == /\ Ev("Chunk") /\ E.c \in DOMAIN chunks /\ chunks[E.c].c = E.c /\ Skip      \* announced: its bytes are in the table from here on
 
+(* a fiber is resumed exactly as it was left, or it is a new one (the recorder names fibers by address, and the address of a
+   reclaimed fiber can be used again: both readings are explored, the next instruction event decides) *)
 LoadFiber == /\ Ev("LoadFiber") /\ phase = "run"
              /\ LET f == E.fib IN
                   /\ f # cur
-                  /\ IF f \in DOMAIN fibs /\ Len(fibs[f].frames) = E.nf /\ fibs[f].frames # <<>> /\ Len(fibs[f].hs) = E.nh
-                     THEN fibs' = fibs
-                     ELSE E.nf = 1 /\ E.nh = 0 /\ fibs' = With(f, NewFiber)
+                  /\ \/ f \in DOMAIN fibs /\ Len(fibs[f].frames) = E.nf /\ fibs[f].frames # <<>> /\ Len(fibs[f].hs) = E.nh /\ fibs' = fibs
+                     \/ E.nf = 1 /\ E.nh = 0 /\ fibs' = With(f, NewFiber)
                   /\ cur' = f
              /\ l' = l + 1 /\ UNCHANGED <<phase>>
 
